@@ -20,9 +20,27 @@ fn net_of(n: usize, edges: &[(usize, usize)]) -> RefNet {
 
 fn check(rep: &mut Report, n: usize, edges: &[(usize, usize)], kind: &str, big: bool) {
     rep.eval();
-    let g = net_of(n, edges).to_graph();
+    // one random graph in eight comes out of the file loader (with or without declared counts) instead of being
+    // assembled in memory: the analysis walks the loader's forward and reverse adjacency
+    let via_files = kind == "random" && n <= 80 && !edges.is_empty() && (edges.len() * 7 + n) % 8 == 0;
+    let net = net_of(n, edges);
+    let g: std::sync::Arc<routee_compass_core::model::network::graph::Graph> = if via_files {
+        match crate::gen::net::graph_for(&net, true) {
+            Ok(g) => {
+                rep.count("graphs_loaded_from_files", 1);
+                g
+            }
+            Err(_) => {
+                rep.count("file_load_refused_(C15)", 1);
+                std::sync::Arc::new(net.to_graph())
+            }
+        }
+    } else {
+        std::sync::Arc::new(net.to_graph())
+    };
+    let g = &*g;
     let replay = || json!({"n": n, "edges": if edges.len() <= 400 { json!(edges) } else { json!(format!("{} edges ({kind})", edges.len())) }, "kind": kind});
-    let res = catch(|| (scc::all_strongly_connected_componenets(&g), scc::largest_strongly_connected_component(&g)));
+    let res = catch(|| (scc::all_strongly_connected_componenets(g), scc::largest_strongly_connected_component(g)));
     let (all, largest) = match res {
         Err(p) => {
             rep.violate(&format!("C18|scc|{}", crate::hooks::panic_sig(&p)), format!("scc panicked: {p}"), replay);
@@ -257,7 +275,7 @@ pub fn run(tier: Tier, seed: u64) -> MonOut {
     }
     MonOut {
         report: rep,
-        rule: "all digraphs (self loops allowed) on 1..4 vertices run completely (2+16+512+65536; thorough adds all 2^20 loop-free digraphs on 5 vertices); random graphs of 2..300 vertices in five styles (uniform multigraph, nested cycles, DAG+back edges, grid, sparse with isolated vertices / parallel edges / self loops); chains, rings and joined rings up to 50k (thorough 400k) vertices. non-trivial = more than one component and a component of size >1; distinct by (n, edge list)".into(),
+        rule: "all digraphs (self loops allowed) on 1..4 vertices run completely (2+16+512+65536; thorough adds all 2^20 loop-free digraphs on 5 vertices); random graphs of 2..300 vertices (one in eight of those up to 80 vertices written to CSV and loaded by Graph::from_files with or without declared counts) in five styles (uniform multigraph, nested cycles, DAG+back edges, grid, sparse with isolated vertices / parallel edges / self loops); chains, rings and joined rings up to 50k (thorough 400k) vertices. non-trivial = more than one component and a component of size >1; distinct by (n, edge list)".into(),
         assumptions: vec![
             "reference = boolean transitive closure (n<=60) or forward/backward BFS per class, on the generator's edge list".into(),
             "long chains are run on a thread with a 3 GiB stack: recursion depth limits are an environment property, not part of C18".into(),
